@@ -664,16 +664,22 @@ def _impl_melody_e2e(a):
             mi._melody_viterbi = orig
         notes = [[_tk(x.start_time), _tk(x.end_time), int(x.pitch) - shift] for x in ns.notes[n0:]]
         if 'args' not in store:
-            out.append({'attained': 0.0, 'best': 0.0, 'notes': notes, 'frames': 0, 'delta': 0.0, 'frame_ll': '', 'nan': False})
+            out.append({'attained': 0.0, 'best': 0.0, 'notes': notes, 'frames': 0, 'delta': 0.0, 'frame_ll': '', 'nan': False,
+                        'events': [], 'struct_ok': True})
             continue
         pitches, frame_ll, trans_ll = store['args']
-        path, _ = _events_to_path(store['res'], list(pitches), mi)
+        path, evs = _events_to_path(store['res'], list(pitches), mi)
+        # hypothesis of theorem C19_melody_notes_start_at_real_notes: an onset state has likelihood log 0 in a frame
+        # without an onset of its pitch
+        _, has_onsets, _, _ = mi.sequence_note_frames(_melody_proto(a['notes'], a['total'], shift=shift))
+        struct_ok = bool(np.all(np.isneginf(frame_ll[:, 1:len(pitches) + 1][~has_onsets])))
         init = trans_ll[0, :] + frame_ll[0, :]
         frames = [frame_ll[t] for t in range(1, frame_ll.shape[0])]
         attained = _float_path_score(init, trans_ll, frames, path)
         best = _float_dp(init, trans_ll, frames)
         import hashlib
         out.append({'attained': attained, 'best': best, 'notes': notes, 'frames': int(frame_ll.shape[0]),
+                    'events': [[k, (p - shift) if k else 0] for k, p in evs], 'struct_ok': struct_ok,
                     'trans': trans_ll, 'frame_ll': hashlib.sha1(frame_ll.tobytes()).hexdigest(),
                     'nan': bool(np.isnan(frame_ll).any() or np.isnan(trans_ll).any())})
     # how far the two transition matrices are apart (the only part of the melody HMM that sees absolute pitch)
@@ -835,6 +841,16 @@ def _check_annotations(prefix, written, times, path_figs):
     return None
 
 
+def _readback(prefix, notes, events, times):
+    """At every frame start the written notes sound exactly the pitch of that frame's melody event."""
+    for (k, p), t in zip(events, times):
+        sounding = [q for s, e, q in notes if isinstance(s, int) and isinstance(e, int) and s <= t < e]
+        if sounding != ([] if k == 0 else [p]):
+            return {'kind': prefix + '-notes-do-not-read-back-as-the-path', 'frame_time': t, 'sounding': sounding,
+                    'event': [k, p]}
+    return None
+
+
 def oracle(case, io):
     op, a = case['op'], case['input']
     if io[0] == 'HARNESS-EXC':
@@ -917,7 +933,9 @@ def oracle(case, io):
                 return {'kind': 'melody-note-not-at-onset-event', 'note': [s, e, p]}
         if not io[2] or io[3] in io[4]:
             return {'kind': 'melody-notes-wrong-instrument'}
-        return None
+        if not any(x[1] < total for x in mel):
+            return None         # no pitched note occupies a frame: nothing to read back
+        return _readback('melody', notes, a['events'], times)
     if op == 'chords_e2e':
         if io[0] != 'OK':
             return {'kind': 'chords-e2e-raised', 'exc': io}
@@ -957,6 +975,13 @@ def oracle(case, io):
                 if (p, s) not in onsets:
                     return {'kind': 'melody-e2e-note-not-at-real-onset', 'note': [s, e, p],
                             'at_sequence_end': any(x[0] == p and x[1] == a['total'] for x in mel)}
+            if not r['struct_ok']:
+                return {'kind': 'melody-e2e-onset-state-possible-without-onset'}
+            if r['frames']:
+                times = [0] + sorted(set([x[1] for x in mel] + [x[2] for x in mel]) - {0, a['total']})
+                v = _readback('melody-e2e', r['notes'], r['events'], times)
+                if v:
+                    return v
         if r0['frame_ll'] != r1['frame_ll']:
             return {'kind': 'melody-e2e-frame-likelihoods-not-transposition-invariant'}
         d = abs(r0['attained'] - r1['attained'])
